@@ -179,6 +179,10 @@ def frag_program(rng):
             w = rng.choice(["break", "continue"])
             return [w] if rng.chance(1, 4) else ["if %s { %s }" % (bexpr(1), w)]
         if k >= 8 and depth < 3:
+            if rng.chance(1, 3):
+                # an else-if chain: the parser turns `else if c { .. }` into an else-block holding that one conditional
+                return ["if %s { %s } else if %s { %s } else { %s }" % (bexpr(1), block(depth + 1, in_loop), bexpr(1), block(depth + 1, in_loop),
+                                                                         block(depth + 1, in_loop))]
             return ["if %s { %s } else { %s }" % (bexpr(1), block(depth + 1, in_loop), block(depth + 1, in_loop))]
         if k == 7 and depth < 3:
             return ["if %s { %s }" % (bexpr(1), block(depth + 1, in_loop))]
@@ -196,6 +200,13 @@ def frag_program(rng):
             kinds[j] = 'x'
             return ["for v%d := %d; v%d %s %d; %s { %s }" % (j, rng.below(3), j, rng.choice(["<", "<=", "!="]), 3 + rng.below(2),
                                                              rng.choice(["v%d++" % j, "v%d += 1" % j, "v%d = v%d + 1" % (j, j)]), body)]
+        if k == 3 and depth < 3 and free_counters and rng.chance(1, 2):
+            # a plain loop: the counter is advanced and tested first, so the loop ends whatever the body does
+            j = free_counters.pop()
+            body = block(depth + 1, True)
+            free_counters.append(j)
+            return ["v%d = 0" % j,
+                    "for { v%d++; if v%d > %d { break }%s }" % (j, j, rng.below(4), "; " + body if body else "")]
         if k == 6 and depth < 3 and free_counters:
             j = free_counters.pop()
             body = block(depth + 1, True)
